@@ -251,7 +251,7 @@ def decide_and_report(prop, tier, seed, mod, agg):
             missed.append("%d shard(s) failed: %s" % (len(hard), hard[0]["why"]))
 
     # a run against another tree (PYGOM_SRC: mutants, seeded changes) must never overwrite the evidence of /repo itself
-    selftest = bool(os.environ.get("PYGOM_SRC"))
+    selftest = bool(os.environ.get("PYGOM_SRC")) or bool(os.environ.get("VERIF_TRIAGE"))
     evid_dir = os.path.join(HOME, "selftest_out", "evidence") if selftest else os.path.join(HOME, "evidence")
     os.makedirs(evid_dir, exist_ok=True)
     replay_paths = []
